@@ -343,6 +343,21 @@ class DevAll(TraceProp):
     rule = 'dev'
 
 
+def db_maintained_cases(rng, n):
+    """a column the DATABASE maintains at UPDATE time (SQL expression `rev + 1`), several flushed updates per transaction"""
+    from .. import envs as _envs
+    for _ in range(n):
+        spec = _envs.shape_articles({'strategy': rng.choice(['validity', 'subquery'])}, plugins=rng.choice([[], ['mod_tracker']]))
+        spec['shape'] = 'articles'
+        spec['classes'][0]['columns'].append({'name': 'rev', 'type': 'int', 'default': 0, 'onupdate_sql': 'rev + 1', 'auto': True})
+        prog = [['add', 'Article', [1], {'name': 1}], ['commit']]
+        for _t in range(rng.choice([1, 2])):
+            for _f in range(rng.choice([2, 3])):
+                prog += [['set', 'Article', [1], rng.choice(['name', 'content']), rng.randrange(1, 5)], ['flush']]
+            prog += [['commit']]
+        yield {'spec': spec, 'autoflush': False, 'program': prog, 'family': 'database_maintained_column'}
+
+
 def class_switch_in_tx(case, obs):
     """from the steps that were actually executed: was a key deleted and then added as another class of its
     hierarchy before the transaction ended?"""
@@ -417,6 +432,12 @@ class C01(TraceProp):
     needs_tags = ['multi_flush_tx', 'multi_tx', 'key_reused_after_delete', 'shape:joined', 'shape:single',
                   'shape:composite', 'plugin:null_delete', 'strategy:subquery', 'autoflush', 'rollback', 'ev:sprollback']
     weights = {'sp_begin': 1, 'sp_commit': 1, 'sp_rollback': 2}
+
+    def gen(self, rng, tier):
+        for c in TraceProp.gen(self, rng, tier):
+            yield c
+        for c in db_maintained_cases(rng, 8 if tier == 'quick' else 150):
+            yield c
 
     def pick_plugins(self, rng):
         return None
@@ -503,8 +524,10 @@ class C11(TraceProp):
     def gen(self, rng, tier):
         for c in TraceProp.gen(self, rng, tier):
             yield c
-        # a key deleted in one transaction and re-used in a later one whose row is written by several flushes
+        for c in db_maintained_cases(rng, 8 if tier == 'quick' else 150):
+            yield c
         from .. import envs as _envs
+        # a key deleted in one transaction and re-used in a later one whose row is written by several flushes
         for _ in range(6 if tier == 'quick' else 100):
             spec = _envs.shape_articles({'strategy': rng.choice(['validity', 'subquery'])}, plugins=['mod_tracker'])
             spec['shape'] = 'articles'
